@@ -646,7 +646,15 @@ pub enum OddKind {
     EmptyDir,
     IncompleteDir,
     CompleteDir,
+    /// An optional metadata file of a package that is a symbolic link to a
+    /// kernel-generated file (procfs): it has content but reports size 0.
+    /// Reading the entry returns what reading the file to its end returns.
+    ProcLink,
 }
+
+/// Kernel-generated files whose content does not change while the machine is
+/// up (used as link targets by `OddKind::ProcLink`).
+pub const PROC_TARGETS: [&str; 3] = ["/proc/sys/kernel/ostype", "/proc/version", "/proc/sys/kernel/osrelease"];
 
 pub struct Odd {
     /// `None`: in the database directory; `Some(i)`: inside `dirs[i]`.
@@ -660,8 +668,17 @@ const ODD_NAMES: [&[u8]; 10] = [
 ];
 
 /// 1-3 odd objects for a tree (see `OddKind`).
-pub fn odd_objects(r: &mut Rng, ndirs: usize, used: &[String]) -> Vec<Odd> {
+pub fn odd_objects(r: &mut Rng, dirs: &[PkgDir], used: &[String]) -> Vec<Odd> {
+    let ndirs = dirs.len();
     let mut out: Vec<Odd> = vec![];
+    if !cfg!(miri) && ndirs > 0 && r.chance(1, 3) {
+        let i = r.below(ndirs);
+        let absent: Vec<usize> = (0..14).filter(|k| dirs[i].files[*k].is_none() && !MANDATORY.contains(k)).collect();
+        if !absent.is_empty() {
+            let k = *r.pick(&absent);
+            out.push(Odd { place: Some(i), name: META_FILES[k].as_bytes().to_vec(), kind: OddKind::ProcLink });
+        }
+    }
     for _ in 0..r.range(1, 3) {
         let name = r.pick(&ODD_NAMES).to_vec();
         let utf8 = std::str::from_utf8(&name).is_ok();
@@ -840,7 +857,7 @@ pub fn tree(r: &mut Rng, serial: &mut usize) -> Tree {
             }
         }
     }
-    let odd = if r.chance(1, 3) { odd_objects(r, dirs.len(), &used) } else { vec![] };
+    let odd = if r.chance(1, 3) { odd_objects(r, &dirs, &used) } else { vec![] };
     Tree { dirs, stray, odd }
 }
 
